@@ -39,30 +39,33 @@ NoAuxM == [slots |-> << <<>>, <<>> >>, adv |-> [b40 |-> FALSE, b50 |-> FALSE, b6
 ModelBlank == [BlankRow EXCEPT !.ss = 32] @@ [ts |-> 0]
 
 (************************ candidates for the next row **********************)
+\* Candidate values per parameter; the admissibility predicates of Squitterator.tla select among them.
+\* For the Comm-B value fields the model explores "unchanged" and "decoded" but not "blanked by the
+\* range filter" (admissible, judged by TraceCheck, but it only multiplies model states).
 AltC(pre, f) == {pre.alt, <<>>} \cup (IF CarriesAlt(f) /\ AltSpecOf(f).kind = "val" THEN {<<AltSpecOf(f).v>>} ELSE {})
 SqC(pre, f) == {pre.sq} \cup (IF CarriesSq(f) THEN {<<Squawk(ID13of(f))>>} ELSE {})
-CsC(pre, f) == {pre.cs, <<>>} \cup (IF IsIdent(f) \/ IsCommB(f) THEN {<<Callsign(f)>>} ELSE {})
+CsC(pre, f) == {pre.cs} \cup (IF IsIdent(f) \/ IsCommB(f) THEN {<<Callsign(f)>>} ELSE {})
 CatC(pre, f) == {pre.cat} \cup (IF IsIdent(f) THEN {<<TCof(f), STof(f)>>} ELSE {})
-GsC(pre, f) == {pre.gs, <<>>} \cup (IF IsVel12(f) /\ VelHasInfo(f)
+GsC(pre, f) == {pre.gs} \cup (IF IsVel12(f) THEN {<<>>} ELSE {}) \cup (IF IsVel12(f) /\ VelHasInfo(f)
                                      THEN {<<IF STof(f) = 1 THEN SpeedKt(Vew(f), Vns(f)) ELSE ISqrt(16 * (Vew(f) * Vew(f) + Vns(f) * Vns(f)))>>}
                                      ELSE IF IsCommB(f) THEN {<<Gs50(f)>>} ELSE {})
-TrkC(pre, f) == {pre.trk, <<>>} \cup (IF IsVel12(f) /\ VelHasInfo(f) /\ ~(Vew(f) = 0 /\ Vns(f) = 0) THEN {<<Track(Vew(f), Vns(f))>>}
+TrkC(pre, f) == {pre.trk} \cup (IF IsVel12(f) THEN {<<>>} ELSE {}) \cup (IF IsVel12(f) /\ VelHasInfo(f) /\ ~(Vew(f) = 0 /\ Vns(f) = 0) THEN {<<Track(Vew(f), Vns(f))>>}
                                        ELSE IF IsCommB(f) THEN {<<(90 * TrackU50(f)) \div 512>>} ELSE {})
-VrC(pre, f) == {pre.vr, <<>>} \cup (IF IsVel12(f) /\ VRateHasInfo(f) THEN {<<VRate(f)>>}
+VrC(pre, f) == {pre.vr} \cup (IF IsVel12(f) THEN {<<>>} ELSE {}) \cup (IF IsVel12(f) /\ VRateHasInfo(f) THEN {<<VRate(f)>>}
                                      ELSE IF IsCommB(f) THEN {<<BaroRate60(f)>>} ELSE {})
 SsC(pre, f) == {pre.ss} \cup (IF IsAirPos(f) \/ IsGnssPos(f) THEN {SurvStatus(f)} ELSE {})
 VerC(pre, f) == {pre.ver} \cup (IF IsOpStat(f) THEN {<<Field(f, 73, 75)>>} ELSE {})
 CaC(pre, f) == {pre.ca} \cup (IF DFof(f) \in {11, 17} THEN {CAof(f)} ELSE {})
 CapsC(pre, f) == {pre.caps} \cup (IF IsCommB(f) THEN {<<0, 1, Caps17(f).b40, 0, Caps17(f).b50, Caps17(f).b60>>} ELSE {})
-SelC(pre, f) == {pre.sel, <<>>} \cup (IF IsCommB(f) THEN {<<Mcp40(f)>>} ELSE {})
-BaroC(pre, f) == {pre.baro, <<>>} \cup (IF IsCommB(f) THEN {<<(BaroRaw40(f) + 8000) \div 10>>} ELSE {})
-RollC(pre, f) == {pre.roll, <<>>} \cup (IF IsCommB(f) THEN {<<FloorDiv(45 * RollS50(f), 256)>>} ELSE {})
-TarC(pre, f) == {pre.tar, <<>>} \cup (IF IsCommB(f) THEN {<<FloorDiv(8 * TarS50(f), 256)>>} ELSE {})
-TasC(pre, f) == {pre.tas, <<>>} \cup (IF IsCommB(f) THEN {<<Tas50(f)>>} ELSE {})
-HdgC(pre, f) == {pre.hdg, <<>>} \cup (IF IsCommB(f) THEN {<<(90 * HdgU60(f)) \div 512>>} ELSE {})
-IasC(pre, f) == {pre.ias, <<>>} \cup (IF IsCommB(f) THEN {<<Ias60(f)>>} ELSE {})
-MachC(pre, f) == {pre.mach, <<>>} \cup (IF IsCommB(f) THEN {<<MachMilli60(f)>>} ELSE {})
-ThrC(pre, f) == {pre.thr, <<>>} \cup (IF IsCommB(f) THEN {<<1>>} ELSE {})
+SelC(pre, f) == {pre.sel} \cup (IF IsCommB(f) THEN {<<Mcp40(f)>>} ELSE {})
+BaroC(pre, f) == {pre.baro} \cup (IF IsCommB(f) THEN {<<(BaroRaw40(f) + 8000) \div 10>>} ELSE {})
+RollC(pre, f) == {pre.roll} \cup (IF IsCommB(f) THEN {<<FloorDiv(45 * RollS50(f), 256)>>} ELSE {})
+TarC(pre, f) == {pre.tar} \cup (IF IsCommB(f) THEN {<<FloorDiv(8 * TarS50(f), 256)>>} ELSE {})
+TasC(pre, f) == {pre.tas} \cup (IF IsCommB(f) THEN {<<Tas50(f)>>} ELSE {})
+HdgC(pre, f) == {pre.hdg} \cup (IF IsCommB(f) THEN {<<(90 * HdgU60(f)) \div 512>>} ELSE {})
+IasC(pre, f) == {pre.ias} \cup (IF IsCommB(f) THEN {<<Ias60(f)>>} ELSE {})
+MachC(pre, f) == {pre.mach} \cup (IF IsCommB(f) THEN {<<MachMilli60(f)>>} ELSE {})
+ThrC(pre, f) == {pre.thr} \cup (IF IsCommB(f) THEN {<<1>>} ELSE {})
 
 \* For frames no property constrains (DF18, other formats) the model keeps the row as it is.
 NextRows(pre, f, ctx, x, t) ==
@@ -93,7 +96,14 @@ NextRows(pre, f, ctx, x, t) ==
          thr  : IF Free(f) THEN {pre.thr} ELSE {v \in ThrC(pre, f) : AdmThr(pre, v, f, ctx)},
          dist : {<<>>},
          ts   : {t}]
-  IN  {[lat |-> p[1], lon |-> p[2]] @@ r : r \in base,
+      \* the model explores register-coherent outcomes only: the fields of one Comm-B register are
+      \* decoded together or left alone together (per-field mixtures are admissible but add nothing)
+      AllOr(S) == S = {TRUE} \/ S = {FALSE}
+      Coherent(r) == IF ~IsCommB(f) \/ Free(f) THEN TRUE ELSE
+                       /\ AllOr({r.gs = pre.gs, r.trk = pre.trk, r.roll = pre.roll, r.tar = pre.tar, r.tas = pre.tas})
+                       /\ AllOr({r.hdg = pre.hdg, r.ias = pre.ias, r.mach = pre.mach, r.vr = pre.vr})
+                       /\ AllOr({r.sel = pre.sel, r.baro = pre.baro})
+  IN  {[lat |-> p[1], lon |-> p[2]] @@ r : r \in {rr \in base : Coherent(rr)},
         p \in (IF Free(f) \/ IsSurface(f) THEN {<<pre.lat, pre.lon>>} ELSE {q \in posC : AdmPos(pre, q[1], q[2], f, vd)})}
 
 AuxNext(x, f, t) ==
